@@ -118,7 +118,18 @@ func (w *World) verifyFunc(key string) (fc *FuncCtx) {
 		if len(cur) == len(fc.contract.Names) {
 			fc.nameAlias = map[string]*types.Var{}
 			fc.renamed = map[*types.Var]bool{}
+			// a renaming: the old name is gone and the new name is new (reordered declarations are not renamings)
+			oldNames, newNames := map[string]bool{}, map[string]bool{}
 			for i, v := range cur {
+				oldNames[fc.contract.Names[i]] = true
+				if v != nil {
+					newNames[v.Name()] = true
+				}
+			}
+			for i, v := range cur {
+				if v != nil && (newNames[fc.contract.Names[i]] || oldNames[v.Name()]) {
+					continue
+				}
 				if v != nil && fc.contract.Names[i] != "_" && fc.contract.Names[i] != v.Name() {
 					fc.nameAlias[fc.contract.Names[i]] = v
 					fc.renamed[v] = true
@@ -351,6 +362,11 @@ func (fc *FuncCtx) checkPost(st *State, vals []Term, n ast.Node) {
 		for _, p := range byRoot[name] {
 			p := p
 			expected = fc.setPath(expected, p, func(Term) Term { return fc.getPath(final, p) })
+		}
+		// fields no contract can name are outside the frame
+		for _, p := range fc.w.irrelevantPaths(v.Type(), 0) {
+			p := p
+			expected = fc.compact(fc.setPath(expected, p, func(Term) Term { return fc.getPath(final, p) }))
 		}
 		if final.S == expected.S {
 			continue
